@@ -47,10 +47,15 @@ def scenarios(draw):
     # downtimes: short, and day-scale (virtual time makes a multi-day outage free)
     downs = [draw(st.sampled_from([1.0, 1.0, 3.0, 86400.0 + 2.0, 3 * 86400.0 + 1.5, 86400.0 - 1.0])) for _ in restarts]
     h['timeout'] = draw(st.sampled_from([h['timeout'], h['timeout'], 2.5, 6.5, 600.0])) if restarts else h['timeout']
+    edits = []
+    if kind == 'timer' and draw(st.booleans()):
+        # an idling timer: essential changes of the object between (and after) its attempts postpone them, and nothing else
+        h['idle'] = draw(st.sampled_from([1.0, 3.0, 8.0]))
+        edits = sorted(draw(st.lists(st.sampled_from([0.5, 2.0, 3.5, 5.0, 7.0, 9.5, 12.0, 16.0, 21.0, 30.0]), min_size=1, max_size=4, unique=True)))
     if kind == 'updel':
         h['retries'] = h['timeout'] = None      # (a handler that finished in the update cycle starts afresh in the deletion cycle)
     return {'kind': kind, 'h': h, 'restarts': restarts, 'downs': downs, 'supersede_at': draw(st.sampled_from([0.0, 0.2, 1.0, 2.5, 5.0, 9.0])), 'default_backoff': draw(st.sampled_from([2.0, 5.0])),
-            'lifecycle': draw(st.sampled_from(['asap', 'all_at_once'])), 'sibling': draw(st.booleans()),
+            'lifecycle': draw(st.sampled_from(['asap', 'all_at_once'])), 'sibling': draw(st.booleans()), 'edits': edits,
             'status_sub': draw(st.booleans())}
 
 
@@ -114,6 +119,11 @@ def run_case(sc):
                     {'a': 'edit_spec', 'obj': 0, 'v': 2, 'dt': 0.0}]
     if sc['kind'] == 'updel':
         actions += [{'a': 'edit_spec', 'obj': 0, 'v': 2, 'dt': sc.get('supersede_at', 1.0)}, {'a': 'delete', 'obj': 0, 'dt': 0.0}]
+    t_prev = 0.0
+    for j, t in enumerate(sc.get('edits') or []):
+        actions.append({'a': 'advance', 'dt': t - t_prev})
+        actions.append({'a': 'edit_spec', 'obj': 0, 'v': 10 + j, 'dt': 0.0})
+        t_prev = t
     t_prev = 0.0
     for i, t in enumerate(sc['restarts']):
         actions.append({'a': 'advance', 'dt': t - t_prev})
@@ -206,7 +216,9 @@ def run_case(sc):
                 alive = run.op() is not None and run.op().alive
                 exists = any(k[0] == KEX for k in sim.cluster.objects) or sc['kind'] == 'startup'
                 # (with a timeout, a retry that became due while the operator was down may legitimately be skipped: timed out)
-                undisturbed = T is None or not sc['restarts']
+                # (and an idling timer's timeout runs from before its wait for idleness, i.e. from earlier than its first attempt: the
+                # property bounds the attempts from above - "no attempt starts later than T after the first" -, giving up earlier is no violation)
+                undisturbed = T is None or (not sc['restarts'] and not h.get('idle'))
                 if (alive or sc['kind'] == 'startup') and exists and undisturbed and sim.world.now - last['t1'] > d + 30.0:
                     res.fail('C11/not-retried', f'{sc["kind"]} {hid}: the attempt at t={last["t0"]} ended with {last["outcome"]} (retry due after {d}s) but nothing followed until t={sim.world.now}')
         # E5: a record that reached the limit says failure
@@ -229,6 +241,8 @@ def run_case(sc):
         if restart_between:
             res.label('restart-between-attempts')
         res.label('kind:' + sc['kind'], 'errors:' + mode)
+        if sc.get('edits'):
+            res.label('idling-timer-with-changes-between-attempts')
         res.nontrivial = reached_limit or restart_between
         res.summary = {'attempts': [(c['inc'], round(c['t0'], 6), c.get('retry'), c['outcome']) for c in calls][:12], 'retries': N, 'timeout': T, 'backoff': backoff}
     finally:
